@@ -42,7 +42,7 @@ def typed(rnd, args):
             if val is None:
                 cluster = flush()
                 out.append(a)
-            elif r < 0.7 and val != "":
+            elif r < 0.7 and val != "" and not val.startswith("="):          # ("-v=VALUE" means VALUE to argparse: see CmdLine.tla)
                 out.append("-" + cluster + "v" + val)             # value attached, possibly after a cluster
                 cluster = ""
             else:
